@@ -212,24 +212,23 @@ func breakCases(rng *gen.RNG, k ocraCase, model ref.Suite) []ocraCase {
 
 func c06Cases(c *Ctx, emit func(ocraVCase)) {
 	rng := c.RNG.Fork(6)
-	var base []ocraCase
 	sub := *c
 	sub.RNG = c.RNG.Fork(66)
+	stride := 3
+	i := -1
 	c05Cases(&sub, func(k ocraCase) {
-		if k.Note == "" {
-			base = append(base, k)
+		if k.Note != "" {
+			return
 		}
-	})
-	stride := c.N(3, 1)
-	for i, k := range base {
+		i++
 		if i%stride != 0 {
-			continue
+			return
 		}
 		model := k.Suite
 		if k.Via == viaRaw {
 			m, ok := ref.ParseSuiteName(k.Suite.Raw)
 			if !ok {
-				continue
+				return
 			}
 			model = m
 		}
@@ -244,7 +243,7 @@ func c06Cases(c *Ctx, emit func(ocraVCase)) {
 				emit(ocraVCase{Base: bk, Submitted: []string{"", hexs([]byte(strings.Repeat("0", model.Digits))), hexs([]byte(ref.OCRA(key, safeModel(model), safeInput(model, in)))), hexs([]byte("12345"))}})
 			}
 		}
-	}
+	})
 }
 
 func safeModel(m ref.Suite) ref.Suite {
@@ -266,9 +265,9 @@ func init() {
 		Rule: "for the C05 suite/input population plus derived failure cases (undecodable secret, each way a suite is unusable, each way an input is inadmissible): GenerateOCRA is run, then ValidateOCRA on the generated code, its single-character edits, truncations/extensions, padded variants, reference codes of a neighbouring counter/challenge/timestamp/sibling suite, '', zeros and random bytes; verdict must equal (submitted == generated), or (false, error) whenever generation fails; " +
 			"distinct_nontrivial counts distinct (case, submitted) pairs where the submitted string is the generated code or has its length, plus distinct (failing case, submitted) pairs",
 		Run: func(c *Ctx) {
-			var cases []ocraVCase
-			c06Cases(c, func(k ocraVCase) { cases = append(cases, k) })
-			parallelJudge(c, cases, judgeOCRAV)
+			b := newBatcher(c, judgeOCRAV, 0)
+			c06Cases(c, b.add)
+			b.flush()
 		},
 		Replay: func(c *Ctx, kind string, raw json.RawMessage) error {
 			return replayAs(raw, func(k ocraVCase) { judgeOCRAV(c, k) })
